@@ -436,6 +436,8 @@ fn threaded_scenario_on(idx: u64, r: &mut Rng, l: &mut Local, ws: bool) {
     let mut receivers = Vec::new();
     let callback_hits: Arc<Mutex<HashMap<u64, usize>>> = Arc::new(Mutex::new(HashMap::new()));
     let mut callback_tags = Vec::new();
+    // callback operations whose submitting call returned an error: that error is their one result
+    let mut callback_sync_errors: Vec<u64> = Vec::new();
     for op in &ops {
         expected.insert(op.tag, op.payload.clone());
         let packet = build_publish(&PublishSpec { topic: "d/e".into(), qos: op.qos, payload: Some(op.payload.clone()), ..Default::default() });
@@ -444,7 +446,7 @@ fn threaded_scenario_on(idx: u64, r: &mut Rng, l: &mut Local, ws: bool) {
                 let hits = callback_hits.clone();
                 let tag = op.tag;
                 let cb: SyncPublishResultCallback = Box::new(move |_res| { *hits.lock().unwrap().entry(tag).or_insert(0) += 1; });
-                match client.publish_with_callback(packet, None, cb) { Ok(()) => callback_tags.push(op.tag), Err(_) => {} }
+                match client.publish_with_callback(packet, None, cb) { Ok(()) => callback_tags.push(op.tag), Err(_) => callback_sync_errors.push(op.tag) }
             }
             2 => {
                 let sub = build_subscribe(&SubscribeSpec { subs: vec![rf::Subscription { filter: crate::world::tagged_filter(op.tag, "x"), qos: 1, ..Default::default() }], ..Default::default() });
@@ -489,6 +491,20 @@ fn threaded_scenario_on(idx: u64, r: &mut Rng, l: &mut Local, ws: bool) {
     }
     if !loop_gone { l.count("c13.watchdog_loop_still_running"); return; }
     l.count("c13.close_races_judged");
+    // callback operations submitted once the loop is gone: exactly one result each - the synchronous
+    // error, or one callback invocation
+    for (tag, kind) in [(2001u64, 0u8), (2002u64, 1u8)] {
+        let hits = callback_hits.clone();
+        let res = if kind == 0 {
+            let cb: SyncPublishResultCallback = Box::new(move |_res| { *hits.lock().unwrap().entry(tag).or_insert(0) += 1; });
+            client.publish_with_callback(build_publish(&PublishSpec { topic: "late/cb".into(), qos: 1, payload: Some(vec![9]), ..Default::default() }), None, cb)
+        } else {
+            let cb: SyncSubscribeResultCallback = Box::new(move |_res| { *hits.lock().unwrap().entry(tag).or_insert(0) += 1; });
+            client.subscribe_with_callback(build_subscribe(&SubscribeSpec { subs: vec![rf::Subscription { filter: "late/cb".into(), qos: 1, ..Default::default() }], ..Default::default() }), None, cb)
+        };
+        l.count("c13.callback_operations_after_close");
+        match res { Ok(()) => callback_tags.push(tag), Err(_) => callback_sync_errors.push(tag) }
+    }
     // The operation receiver has been dropped.  The loop thread may still be discarding the messages
     // that were queued in the channel (that is what resolves them); give it a generous 20 s (the wait ends as soon as everything is resolved).  After
     // that nothing that could fill a result slot exists any more.
@@ -503,6 +519,7 @@ fn threaded_scenario_on(idx: u64, r: &mut Rng, l: &mut Local, ws: bool) {
     }
     for (tag, rx) in racer_rx.into_iter() { l.count("c13.results_checked"); pending.push((tag, Box::new(move || rx.try_recv().is_some()))); }
     for rx in probes.into_iter() { l.count("c13.results_checked"); pending.push((9999, Box::new(move || rx.try_recv().is_some()))); }
+    for t in &callback_tags { l.count("c13.results_checked"); let hits = callback_hits.clone(); let t = *t; pending.push((t, Box::new(move || hits.lock().unwrap().get(&t).copied().unwrap_or(0) >= 1))); }
     let grace = Instant::now() + Duration::from_secs(PATIENCE_S);
     loop {
         pending.retain(|(_, done)| !done());
@@ -515,6 +532,7 @@ fn threaded_scenario_on(idx: u64, r: &mut Rng, l: &mut Local, ws: bool) {
     }
     let hits = callback_hits.lock().unwrap();
     for t in callback_tags { match hits.get(&t).copied().unwrap_or(0) { 1 => {} 0 => l.violation("C13.R5-operation-never-resolves", &[("driver", driver.into()), ("submitted", "callback".into())], format!("callback of op {} never invoked although the loop is gone", t), replay.clone()), n => l.violation("C13.R6-result-delivered-twice", &[("driver", driver.into())], format!("callback of op {} invoked {} times", t, n), replay.clone()) } }
+    for t in callback_sync_errors { l.count("c13.results_checked"); let n = hits.get(&t).copied().unwrap_or(0); if n > 0 { l.violation("C13.R6-result-delivered-twice", &[("driver", driver.into()), ("how", "synchronous-error-and-callback".into())], format!("submitting callback op {} returned an error and its callback was invoked {} time(s) as well", t, n), replay.clone()); } }
     drop(hits);
     let moved = check_streams(&hub, &expected, l, driver, &replay);
     let rec = received.lock().unwrap().clone();
